@@ -62,7 +62,7 @@ def check(case):
     nf = len(exact)
     if sum(rl) != 1.0:
         lab += ["float_sum_ne_1", "nt"]
-    if not isinstance(folds, list) or len(folds) != nf:
+    if not isinstance(folds, (list, tuple)) or len(folds) != nf:
         raise Violation("wrong_fold_count", "%s returned %d folds, expected %d" % (ctx, len(folds) if hasattr(folds, "__len__") else -1, nf))
     for i, f in enumerate(folds):
         if len(f) != len(sizes):
